@@ -16,6 +16,17 @@ def run(rep, tier, seed, replay):
     h, m = P.h, P.m
     rep.evaluations = len(exprs)
     built = [k for k in range(len(exprs)) if P.impl[k]["ok"]]
+    # building a pattern from its TEXT is the first route of all: a text the model builds (every limit respected) and the crate
+    # rejects, on this thread with its history of earlier builds, is a route that changed the behaviour
+    import re as _re
+    for k, e in enumerate(exprs):
+        i, mo = P.impl[k], P.model[k]
+        nums = [int(x) for x in _re.findall(r"\d+", e)]
+        small = len(e) < 200 and all(x < 50 for x in nums) and (max(nums) if nums else 1) ** min(len(nums), 3) < 3000 and not _re.search(r"[{<]{12,}", e)
+        if mo["ok"] and not i["ok"] and small and (i.get("err") in ("parse", "compile") or str(i.get("err", "")).startswith("rule:")):
+            rep.violation("oracle", "Glob::new rejects the text %r (%s), which the model of the committed code builds: the same text builds or not depending on what this thread built before" % (e, i.get("err")),
+                          {"expr": e, "what": "text-route"}, impl=i["raw"][:200], model=mo["raw"][:200])
+            break
     r = random.Random(seed)
     words = h.ask(["WD %s 6" % hexs(P.impl[k]["pattern"]) for k in built])
     reqs = []
